@@ -134,11 +134,13 @@ theorem discardEpoch_sorted {s s' : St} {e a b : Nat} (h : discardEpoch s e a b 
   · simp only [ebind_ok] at h
     obtain ⟨bytes, _, h2⟩ := h
     refine setTimer_sorted h2 ?_
-    unfold discardReset
-    simp only
     have : SortedAll (setSp { s with bytes := bytes } e { getSp s e with sent := [], tl := none, lt := none }) :=
       sortedAll_setSp _ _ (s := { s with bytes := bytes }) hs (by unfold Sorted; exact List.Pairwise.nil)
-    exact this
+    unfold discardReset markDiscarded
+    simp only
+    split
+    · exact this
+    · split <;> exact this
 
 theorem onPktSent_sorted {s s' : St} {i : Inp} {e pn : Nat} {elic infl : Bool} {size : Nat}
     (h : onPktSent s i e pn elic infl size = .ok s') (hs : SortedAll s)
